@@ -88,7 +88,7 @@ func init() {
 			"testing/fstest.MapFS is a correct fs.FS; golang.org/x/net/html re-parse of the output is the trusted observer",
 			"a variable name is one exact identifier; a struct passed to Fill defines the field name and the JSON tag of each exported field; all competing sources of a case write the same identifier",
 			"a Fill that does not mention a key written earlier (by Fill or Assign, or inherited from the parent) is not judged for that key: both the earlier value and the fall-through to data/*.yml, theme.yml are accepted",
-			"a key that a child inherits from its parent's own front-matter (Load/New on a loaded template) is not judged: parent front-matter is not one of the sources the statement orders",
+			"a key that a child inherits from its parent's own front-matter (Load/New on a loaded template) is not judged until the child itself is given the key through Fill or Assign: parent front-matter is not one of the sources the statement orders, but from then on the child's own Fill/Assign value (or its own front-matter) must be seen",
 			"RenderString on a Load()ed template is not a render of that file: its front-matter keys are accepted with either the front-matter or the Fill/Assign value",
 			"Vue.Render / Vue.RenderFragment take no config (NewVue does not read theme.yml, data/): only front-matter > passed data is judged there",
 			"several data/*.yml files defining one key: the alphabetically last file wins (docs/data-loading.md); the statement itself only places data/ above theme.yml",
@@ -674,10 +674,17 @@ func (m *c08Model) fill(v map[string]string, shape string) {
 	}
 	for k, tag := range v {
 		m.w[k] = &c08Ent{vals: []c08V{{tag, cls}}}
+		// a value written to this template after it was derived is "given through
+		// Fill/Assign"; an inherited parent front-matter value is not this
+		// template's own front-matter and can no longer stand in for the key
+		delete(m.inh, k)
 	}
 }
 
-func (m *c08Model) assign(k, tag string) { m.w[k] = &c08Ent{vals: []c08V{{tag, "assign"}}} }
+func (m *c08Model) assign(k, tag string) {
+	m.w[k] = &c08Ent{vals: []c08V{{tag, "assign"}}}
+	delete(m.inh, k)
+}
 
 // ---------------------------------------------------------------- execution
 
